@@ -72,7 +72,7 @@ class C03(RailsProp):
             f_here = [e for e in ev if e.get("faulted")]
             # (a) generate returns normally
             if rec.status != "ok":
-                out.violate("generate-raised", "%s:%s:%s" % (cc, sitesig if f_here else "later-turn", type(rec.exc).__name__),
+                out.violate("generate-raised", "%s:%s:%s" % (cc, sitesig if f_here else "later-turn", _exc_slug(rec.exc)),
                             "turn %d %s: generate raised %r (faults injected at action calls %r)" % (rec.t, rec.tok, rec.exc, faults))
                 continue
             reply_text = rec.reply if isinstance(rec.reply, str) else ""
@@ -98,15 +98,15 @@ class C03(RailsProp):
                     if fe["kind"] == "rail" and fe["rail"].startswith("out"):
                         guarded = fe.get("text") or ""
                         bad = None
-                        if guarded and RR.LLM_TEXT_RE.search(guarded) and guarded in reply_text:
-                            bad = "the reply %r is the text output rail %s was checking when it raised" % (rec.reply, fe["rail"])
-                        else:
-                            # any LLM text of this turn in the reply must have been approved by all rails
-                            for m in RR.LLM_TEXT_RE.finditer(reply_text):
-                                passed = [e for e in ev if e["kind"] == "rail" and e["rail"].startswith("out") and e["text"] == m.group(0) and not e.get("faulted") and e.get("verdict") != "block"]
-                                if len(passed) < len(sc["out_rails"]):
-                                    bad = "output rail %s raised; reply %r contains LLM text approved by only %d of %d rails" % (fe["rail"], rec.reply, len(passed), len(sc["out_rails"]))
-                                    break
+                        # any LLM text of this turn in the reply must have been approved by every output rail
+                        # AFTER the failure (a later, complete and successful pass over the same text counts)
+                        for m in RR.LLM_TEXT_RE.finditer(reply_text):
+                            passed = set(e["rail"] for e in ev if e["kind"] == "rail" and e["rail"].startswith("out") and e["text"] == m.group(0)
+                                         and not e.get("faulted") and e.get("verdict") in ("allow",) and e["idx"] > fe["idx"])
+                            if len(passed) < len(sc["out_rails"]):
+                                bad = "output rail %s raised while checking %r; the reply %r contains LLM text that only %d of %d output rails approved afterwards" % (
+                                    fe["rail"], guarded, rec.reply, len(passed), len(sc["out_rails"]))
+                                break
                         if bad:
                             out.violate("unchecked-text-after-failed-output-rail", "%s" % cc, "turn %d %s: %s; faults %r" % (rec.t, rec.tok, bad, faults))
             else:
@@ -199,6 +199,17 @@ class C03(RailsProp):
     def same_class(self, a, b):
         # the configuration class may shrink; keep oracle + colang version + failure kind
         return a.oracle == b.oracle and a.sig.split(":")[-1] == b.sig.split(":")[-1] and a.sig.split(":")[0] == b.sig.split(":")[0]
+
+
+def _exc_slug(e):
+    """Exception class plus, for bare Exception, a slug of its message (e.g. Exception-too-many-events)."""
+    name = type(e).__name__
+    if name == "Exception":
+        import re as _re
+
+        words = _re.findall(r"[a-z]+", str(e).lower())[:3]
+        return "Exception-" + "-".join(words)
+    return name
 
 
 def _poison_kind(sc, rec, ev, v):
